@@ -24,7 +24,7 @@ def run(tier, seed, replay=None):
     if not g.ok:
         raise Inconclusive("Args_Gen failed on the model: %s\n%s" % (g.invariant, g.out[-2500:]))
     recs = os.path.join(sc, "c18.ndjson")
-    vlib.vh(["c18", "-cases", cases, "-out", recs, "-rand", 3000 if quick else 40000, "-seed", seed], timeout=1700)
+    vlib.vh(["c18", "-cases", cases, "-out", recs, "-rand", 3000 if quick else 200000, "-seed", seed], timeout=1700)
     bad = os.path.join(sc, "c18bad.ndjson")
     t = vlib.tlc("Args_Trace", "Args_Trace.cfg", env={"ARGTYPES": types, "RECS": recs, "OUT": bad}, workers=1, timeout=1700, heap="8g")
     if not t.ok or not os.path.exists(bad):
